@@ -221,6 +221,19 @@ func GenFileCaseHuge(t *rapid.T, v1 bool, bigPct int, hugePct int, sessLenOf fun
 	}
 	c.WriteCuts = GenCuts(t, "w", c.Pay.Len, anchors)
 	c.ReadSizes = CutsToSizes(GenCuts(t, "r", c.Pay.Len, anchors))
+	if c.Pay.Len >= BlockSize/2 && rapid.IntRange(0, 2).Draw(t, "hugeread") == 0 {
+		// bulk readers: the rest of the stream is read into one buffer that can hold it
+		// all (io.ReadFull into a payload sized buffer, a reader with a buffer of several
+		// blocks), after the generated smaller reads
+		consumed := 0
+		for _, n := range c.ReadSizes {
+			consumed += n
+		}
+		extra := rapid.SampledFrom([]int{0, 0, CRCSize, TailSize, 100, BlockSize}).Draw(t, "hugeextra")
+		if rest := c.Pay.Len - consumed; rest > 0 {
+			c.ReadSizes = append(c.ReadSizes, rest+extra)
+		}
+	}
 	c.ReadFull = rapid.Bool().Draw(t, "readfull")
 	return c
 }
